@@ -27,7 +27,7 @@ Fields == Data.fields
 Chars == Data.chars
 MaxMaskLetters == %d
 ====
-''' % (dpath, 12 if th else 8)
+''' % (dpath, 14 if th else 8)
     mc = '''---- MODULE TextMC ----
 EXTENDS Text, Json
 ASSUME JsonSerialize("%s", SetToSeq(ActionCases \\cup OperationCases))
